@@ -249,9 +249,9 @@ class LoadMixin(AbstractLoaderGenerator, BaseLoadHook):
             force_wrap = True
         else:
             string = ', '.join([
-                cls.get_string_for_annotation(
+                str(cls.get_string_for_annotation(
                     tp.replace(origin=arg, index=k),
-                    extras)
+                    extras))
                 for k, arg in enumerate(args)])
 
             result = f'({string}, )'
